@@ -741,7 +741,17 @@ func genInfixOperand(t *rapid.T, depth int) []itok {
 	case 9:
 		// indexing
 		var sub []itok
-		switch rapid.IntRange(0, 4).Draw(t, "sel") {
+		switch rapid.IntRange(0, 9).Draw(t, "sel") {
+		case 5:
+			sub = []itok{tWord("colon"), tName("a"), tOp("+"), tNum(1)}
+		case 6:
+			sub = []itok{tName("a"), tOp("-"), tNum(1), tWord("colon")}
+		case 7:
+			sub = []itok{tName("a"), tOp("-"), tNum(2), tWord("colon"), tName("a"), tOp("*"), tNum(2)}
+		case 8:
+			sub = []itok{tWord("colon"), tCall(2)}
+		case 9:
+			sub = []itok{tNum(0), tWord("colon"), tName("arr"), tIndex(tNum(0)), tOp("-"), tNum(8)}
 		case 0:
 			sub = []itok{tNum(rapid.IntRange(0, 4).Draw(t, "i"))}
 		case 1:
@@ -898,6 +908,9 @@ func TestC06(t *testing.T) {
 			{tName("p"), tOp(op), tName("arr"), tIndex(tNum(1))},
 			{tName("arr"), tIndex(tName("p"), tOp("+"), tNum(1)), tOp(op), tName("q")},
 			{tName("p"), tOp(op), tName("arr"), tIndex(tNum(1), tWord("colon"), tNum(3))},
+			{tName("p"), tOp(op), tName("arr"), tIndex(tWord("colon"), tName("q"), tOp("+"), tNum(1))},
+			{tName("p"), tOp(op), tName("arr"), tIndex(tName("q"), tOp("-"), tNum(1), tWord("colon"))},
+			{tName("arr"), tIndex(tName("p"), tOp("*"), tNum(2), tWord("colon"), tName("q"), tOp("+"), tNum(1)), tOp(op), tName("r")},
 			{tName("p"), tOp(op), tCall(1), tOp(op), tName("q")},
 			{tName("p"), tOp(op), tBlock(tName("q"), tOp("+"), tName("r")), tOp("*"), tName("s")},
 			{tName("p"), tOp(op), tName("h.k"), tOp("*"), tName("s")},
